@@ -138,6 +138,10 @@ class Kernel:
                 continue
             f = val.func
             nm = f.id if isinstance(f, ast.Name) else (f.attr if isinstance(f, ast.Attribute) else None)
+            if isinstance(f, ast.Name) and nm in init.module.imports:
+                src, orig = init.module.imports[nm]
+                if orig:
+                    nm = orig  # `from threading import RLock as Lock` is an RLock
             if nm in ctor_names and isinstance(tgt, ast.Attribute) and isinstance(tgt.value, ast.Name) and tgt.value.id == "self":
                 return tgt.attr, nm
         raise AnalysisError(f"anchor lost: no attribute of BaseEngine assigned from {ctor_names}")
